@@ -27,3 +27,4 @@ package stats
 //@   ensures result != nil
 //@ func (*Timer).SendGauge
 //@   trusted
+//@   requires t != nil
